@@ -115,7 +115,10 @@ def to_members(entries, rnd, arcmod, streams):
                 e['plain'] = mac_expected(e)
                 e['level'] = m['level']
                 continue
-            x = arcmod.file_member(rnd, meth, base, size=e['size'], level=lvl, path=parent, mtime=e['mtime'], perms=e['perms'])
+            kw = {}
+            if meth != '-lk7-' and lvl >= 1 and rnd.random() < 0.15:
+                kw['os_type'] = ord('m')        # a member of a Mac archive that carries no MacBinary envelope (also shorter than one)
+            x = arcmod.file_member(rnd, meth, base, size=e['size'], level=lvl, path=parent, mtime=e['mtime'], perms=e['perms'], **kw)
             e['plain'] = x.plain
             ms.append(x)
     return ms
